@@ -25,10 +25,14 @@ type encHooks struct {
 	paramPins map[string]*sym.Term
 	opaque    map[string]bool
 	enter     map[string]bool
+	// snap lists, per opaque callee, Encoder fields whose value at the call is appended to the event's arguments
+	snap map[string][]string
+	encT *types.Named
 }
 
 func (c *Ctx) newEncHooks(in *sym.Interp) *encHooks {
-	h := &encHooks{c: c, pins: map[string]*sym.Term{}, paramPins: map[string]*sym.Term{}, opaque: map[string]bool{}, enter: map[string]bool{}}
+	h := &encHooks{c: c, pins: map[string]*sym.Term{}, paramPins: map[string]*sym.Term{}, opaque: map[string]bool{}, enter: map[string]bool{}, snap: map[string][]string{}}
+	h.encT = c.P.Named("encode", "Encoder")
 	if n := c.Named("encode", "buffer"); n != nil {
 		h.bufT = n
 	}
@@ -107,7 +111,17 @@ func (h *encHooks) Call(in *sym.Interp, fr *sym.Frame, site ssa.CallInstruction,
 		} else if rs.Len() > 1 {
 			rt = rs
 		}
-		in.Emit(fr, "opaquecall", site, callee.Name(), args, fr.Mem())
+		evArgs := args
+		if fs := h.snap[callee.Name()]; len(fs) > 0 && h.encT != nil {
+			evArgs = append([]*sym.Term{}, args...)
+			eobj := in.ParamObj("e", h.encT)
+			for _, f := range fs {
+				if i := fieldIndex(h.encT, f); i >= 0 {
+					evArgs = append(evArgs, in.LoadAt(fr.Mem(), eobj, sym.Path{sym.F(i)}))
+				}
+			}
+		}
+		in.Emit(fr, "opaquecall", site, callee.Name(), evArgs, fr.Mem())
 		if rt == nil {
 			return true, nil
 		}
